@@ -160,6 +160,20 @@ let handle = function
       (reverse_ite_cases (mk fuel) (nat_of_int 4000) (expr_of e))
   | L [A "chop"; e; b] -> res_sexp (fun l -> L (List.map sexp_of_expr l)) (chop (mk fuel) (expr_of e) (z_a b))
   | L [A "get_bytes"; e; i; n] -> res_sexp sexp_of_expr (get_bytes (mk fuel) (expr_of e) (z_a i) (z_a n))
+  | L [A (("vsa_convert" | "vsa_aeval") as which); L ann; L tab; L joins; e] ->
+    let av = function
+      | L [A "si"; w; s; l; u; A b] -> ASI (z_a w, z_a s, z_a l, z_a u, b = "1")
+      | L [A "bool"; A t; A f] -> ABool (t = "1", f = "1")
+      | x -> failwith ("aval: " ^ to_string x) in
+    let av_sexp = function
+      | ASI (w, s, l, u, b) -> L [A "si"; a_z w; a_z s; a_z l; a_z u; A (if b then "1" else "0")]
+      | ABool (t, f) -> L [A "bool"; A (if t then "1" else "0"); A (if f then "1" else "0")] in
+    let ann' = List.map (function L [n; a] -> (z_a n, av a) | _ -> failwith "ann") ann in
+    let tab' = List.map (function L [A op; L ints; L args; r] -> (((op_of_string op, List.map z_a ints), List.map av args), av r)
+                                | _ -> failwith "tab") tab in
+    let joins' = List.map (function L [a; b; r] -> ((av a, av b), av r) | _ -> failwith "joins") joins in
+    res_sexp av_sexp (if which = "vsa_aeval" then vsa_aeval ann' tab' joins' (expr_of e)
+                      else vsa_convert (mk fuel) ann' tab' joins' (expr_of e))
   | L [A "excavate"; e] -> res_sexp sexp_of_expr (excavate (mk fuel) (expr_of e))
   | L [A "fe_add"; st; L nw] -> fe_sexp (fe_add (fe_of st) (List.map expr_of nw))
   | L [A "fe_merge"; L sts; L conds] ->
